@@ -292,14 +292,14 @@ class Report:
         for k in self.known:
             print('KNOWN-FINDING: property=%s %s' % (self.prop, k['what']))
         for i, v in enumerate(self.violations[:5]):
-            p = os.path.join(REPLAYS, '%s_input_%d.json' % (stamp, i)); json.dump(dict(property=self.prop, type='failing-input', **v), open(p, 'w'), indent=1, default=str)
+            p = os.path.join(REPLAYS, '%s_input_%d.json' % (stamp, i)); json.dump(dict(v, property=self.prop, record='failing-input'), open(p, 'w'), indent=1, default=str)
             print('VIOLATION property=%s replay=%s' % (self.prop, p)); rc = 1
         if not self.violations:
             for i, v in enumerate(self.breaks[:3]):
-                p = os.path.join(REPLAYS, '%s_corr_%d.json' % (stamp, i)); json.dump(dict(property=self.prop, type='correspondence-broken', **v), open(p, 'w'), indent=1, default=str)
+                p = os.path.join(REPLAYS, '%s_corr_%d.json' % (stamp, i)); json.dump(dict(v, property=self.prop, record='correspondence-broken'), open(p, 'w'), indent=1, default=str)
                 print('VIOLATION property=%s replay=%s no-failing-input-found' % (self.prop, p)); rc = 1
             if not audit['ok'] and not self.breaks:
-                p = os.path.join(REPLAYS, '%s_proof.json' % stamp); json.dump(dict(property=self.prop, type='proof-broken', theorems=audit['theorems'], problems=audit['problems']), open(p, 'w'), indent=1)
+                p = os.path.join(REPLAYS, '%s_proof.json' % stamp); json.dump(dict(property=self.prop, record='proof-broken', theorems=audit['theorems'], problems=audit['problems']), open(p, 'w'), indent=1)
                 print('VIOLATION property=%s replay=%s no-failing-input-found' % (self.prop, p)); rc = 1
         print('%s %s tier=%s seed=%d: proofs %d/%d, evaluations=%d, nontrivial=%d, violations=%d, breaks=%d, known=%d, %.1fs' % (
             self.prop, 'FAIL' if rc else 'ok', self.tier, self.seed, audit['discharged'], audit['obligations'], self.cov['evaluations'],
